@@ -136,7 +136,7 @@ func TestVerifC03Seq(t *testing.T) {
 	r := vrt.Start("C03")
 	c03Messages = agdtest.NewConstructor(t)
 
-	dbs := vrt.Pick(r, []string{"normal", "deleted"}, []string{"normal", "deleted", "detached", "readdressed", "moved"})
+	dbs := vrt.Pick(r, []string{"normal", "deleted", "keys-removed"}, []string{"normal", "deleted", "keys-removed", "detached", "readdressed", "moved"})
 	lens := vrt.Pick(r, []int{2}, []int{2, 3})
 	r.Bound("seq_lengths", lens)
 	r.Bound("seq_db_states", dbs)
